@@ -154,8 +154,9 @@ def apply_edit(rng, db, hd, kind, counter):
         elif kind == 'r.name':
             put(lambda: r, 'name', rng.choice([None, '', fresh('fk')]), 'reference.name')
         elif kind == 'r.actions':
-            put(lambda: r, 'on_update', rng.choice([None, 'cascade', 'set null']), 'reference.on_update')
-            put(lambda: r, 'on_delete', rng.choice([None, 'restrict', 'no action']), 'reference.on_delete')
+            # any spelling: an action assigned in place is the action a freshly built reference with that action has
+            put(lambda: r, 'on_update', rng.choice([None, 'cascade', 'set null', 'CASCADE', 'Set Null']), 'reference.on_update')
+            put(lambda: r, 'on_delete', rng.choice([None, 'restrict', 'no action', 'NO ACTION', 'Restrict']), 'reference.on_delete')
         return kind
     if kind.startswith('g.') and G:
         g = rng.choice(G)
